@@ -18,6 +18,8 @@ def is_reported(op, out):
             return "err=1" in out
         if t[2] == "item":
             return "err=1" in out
+        if t[2] == "errany":           # jwks_error_any: the documented way to ask whether any key of the set failed to load
+            return out != "0"
         return False
     if t[0] in ("ck", "bl"):
         if t[2] in ("verify",):
@@ -122,6 +124,17 @@ def scenarios(pool, extra_keys, tier):
         "clock 1000", "jwks 5 load %s strn" % hx(jwk), "ck 0 new", "ck 0 setkey 0 5 0", "bl 0 new", "bl 0 setkey 0 5 0", "bl 0 gen", "ck 0 verify @last",
         "jwks 5 load %s strn" % hx(set3), "jwks 5 item 0", "ck 0 verify @last", "bl 0 gen", "jwks 5 find %s" % hx(b"k1"), "jwks 5 count",
         "bl 0 free", "ck 0 free", "jwks 5 del"]
+    # a keyring that is already big when more keys arrive, read at every position afterwards (whatever bookkeeping a big
+    # keyring carries has to survive a load that fails half-way)
+    import suites as S
+    for nbig in sorted({20} | {h + d for h in S.HINTS if h <= 64 for d in (0, 1)}):
+        big = json.dumps({"keys": [oct_.jwk(extra={"kid": "k-%d" % i}) for i in range(nbig)]}).encode()
+        more = json.dumps({"keys": [oct_.jwk(extra={"kid": "a"}), oct_.jwk(extra={"kid": "b"})]}).encode()
+        sc["jwks-append-to-%d-keys" % nbig] = [
+            "jwks 6 load %s strn" % hx(big), "jwks 6 errany", "jwks 6 count", "jwks 6 item 0", "jwks 6 item %d" % (nbig // 2), "jwks 6 item %d" % (nbig - 1),
+            "jwks 6 load %s strn" % hx(more), "jwks 6 errany", "jwks 6 count", "jwks 6 item 0", "jwks 6 item 1", "jwks 6 item %d" % (nbig // 2), "jwks 6 item %d" % (nbig - 1),
+            "jwks 6 item %d" % nbig, "jwks 6 item %d" % (nbig + 1), "jwks 6 item %d" % (nbig + 2), "jwks 6 find %s" % hx(b"k-5"), "jwks 6 find %s" % hx(b"b"), "jwks 6 freebad",
+            "jwks 6 item 5", "jwks 6 item %d" % (nbig - 1), "jwks 6 free 0", "jwks 6 item 0", "jwks 6 count", "jwks 6 del"]
     keys = [("rsa2048", "RS256"), ("p256", "ES256"), ("ed25519", "EdDSA")]
     if tier == "thorough":
         keys += [("rsa2048", "PS384")]
